@@ -189,9 +189,11 @@ func (c *Context) ActorOf(actor vivid.Actor, options ...vivid.ActorOption) (vivi
 		c.children = make(map[vivid.ActorPath]vivid.ActorRef)
 	}
 	c.children[childCtx.Ref().GetPath()] = childCtx.Ref()
+	// OnLaunch 必须在持锁期间入列：父 Actor 终止时会在同一把锁下向所有已登记的子 Actor 发送 Kill，
+	// 若登记与 OnLaunch 入列之间存在空隙，子 Actor 会先于 OnLaunch 收到 OnKill
+	c.tell(true, childCtx.Ref(), new(vivid.OnLaunch))
 	c.childrenLock.Unlock()
 
-	c.tell(true, childCtx.Ref(), new(vivid.OnLaunch))
 	c.Logger().Debug("actor spawned", log.String("path", childCtx.Ref().GetPath()))
 
 	// 通知事件流
